@@ -303,11 +303,92 @@ Theorem C03_instance_roundtrip : forall cx insts lib cell i x l c cs C,
 Proof. exact inst_roundtrip. Qed.
 Print Assumptions C03_instance_roundtrip.
 
-(* The general statement over the decidable class [writable] (Fmt/EdifEmit.v: what the reader
-   checks on the written file, minus the open findings: "&_" buses, bit-like scalar names, names
-   with * ?, non-ASCII text, line breaks in strings). NOT PROVED. Every run evaluates, on every
-   generated and bundled netlist, writable n -> rt_check n (model) and writable n -> the
-   implementation reads its own file back to the same netlist; a counterexample is a VIOLATION. *)
+(* NETS and ONE CELL (Proofs/EdifEmitNets.v). [rp x] = the ports the reader holds for instance x. *)
+From SV Require Import Fmt.EdifFileSpec Proofs.EdifNetsProofs Proofs.EdifEmitNets.
+(* one (portref ..), with (member p k) for array ports and (instanceref i): the same pin comes back *)
+Theorem C03_pin_roundtrip : forall libs c cx rp p x,
+  cx_ports cx = ce_ports c -> pin_good libs c rp p -> pin_sexp libs c p = EmOk x ->
+  exists args, x = SList (KW "portref" :: args) /\ parse_portref cx (einsts rp (ce_insts c)) args = Ok p.
+Proof. exact pin_roundtrip. Qed.
+Print Assumptions C03_pin_roundtrip.
+(* all nets of a cell through the reader's contents loop: exactly Fmt/EdifNets.read_nets of the
+   written nets (so C03_cell_nets_roundtrip applies) *)
+Theorem C03_nets_loop_is_read_nets : forall libs c cx rp nets cabs0 xs cabsF,
+  cx_ports cx = ce_ports c ->
+  emap (net_sexp libs c) nets = EmOk xs -> Forall (net_good libs c rp) nets ->
+  Proofs.EdifFileNets.sinv cabs0 -> read_nets cabs0 nets = Some cabsF ->
+  NoDup (Proofs.EdifFileNets.spins cabs0 ++ flat_map snd nets) ->
+  loop (contents_step cx) false (mkcst (einsts rp (ce_insts c)) cabs0) xs =
+  Ok (mkcst (einsts rp (ce_insts c)) cabsF).
+Proof. exact nets_loop. Qed.
+Print Assumptions C03_nets_loop_is_read_nets.
+(* ONE CELL: name, interface, instances, nets; read in a reader state (libraries [rlibs] read, cells
+   [rcells] of this library read so far) in which every instance reference resolves ([inst_good])
+   and every pin names a declared port below its width ([net_good]): parse_cell gives norm_cell c *)
+Theorem C03_emit_roundtrip_cell : forall rlibs libs lib rcells c x rp,
+  cell_sexp [] libs lib c = EmOk x ->
+  elem_w (ce_ident c) (ce_name c) = true ->
+  forallb port_w (ce_ports c) = true ->
+  uniq_ci (map po_ident (ce_ports c)) = true -> uniq_x (map po_name (ce_ports c)) = true ->
+  Forall (inst_good (mkctx rlibs lib rcells (ce_ident c) (K "netlist") (ce_ports c)) rp) (ce_insts c) ->
+  uniq_ci (map in_ident (ce_insts c)) = true -> uniq_x (map in_name (ce_insts c)) = true ->
+  wf_cell (ce_cabs c) -> Forall (net_good libs c rp) (emit_nets (ce_cabs c)) -> NoDup (pins_of (ce_cabs c)) ->
+  ident_taken (ce_ident c) (map ce_ident rcells) = false ->
+  name_taken (ce_name c) (map ce_name rcells) = false ->
+  exists args, x = SList (KW "Cell" :: args) /\ parse_cell rlibs lib rcells args = Ok (norm_cell c).
+Proof. exact cell_roundtrip. Qed.
+Print Assumptions C03_emit_roundtrip_cell.
+
+(* FROM THE BOOLEAN CLASS (Proofs/EdifEmitCell.v): position of a cell in the file
+   libs = prev ++ Lc :: after, li_cells Lc = done ++ rest ([env]); the reader has then read
+   map norm_lib prev and map norm_cell done *)
+From SV Require Import Proofs.EdifEmitCell.
+Theorem C03_emit_roundtrip_cell_writable : forall libs prev lib done c x,
+  env libs prev lib done -> cell_w prev lib done c = true ->
+  ident_taken (ce_ident c) (map ce_ident done) = false -> name_taken (ce_name c) (map ce_name done) = false ->
+  cell_sexp [] libs lib c = EmOk x ->
+  exists args, x = SList (KW "Cell" :: args) /\
+    parse_cell (map norm_lib prev) lib (map norm_cell done) args = Ok (norm_cell c).
+Proof. exact cell_w_roundtrip. Qed.
+Print Assumptions C03_emit_roundtrip_cell_writable.
+(* ONE LIBRARY of a file libs = prev ++ Lc :: after whose earlier libraries are writable *)
+Theorem C03_emit_roundtrip_library : forall libs prev Lc after x,
+  libs = prev ++ Lc :: after -> uniq_ci (map li_ident libs) = true -> prev_ok prev ->
+  lib_w prev Lc = true ->
+  ident_taken (li_ident Lc) (map li_ident prev) = false -> name_taken (li_name Lc) (map li_name prev) = false ->
+  lib_sexp [] libs Lc = EmOk x ->
+  exists args, x = SList (KW "Library" :: args) /\ parse_library (map norm_lib prev) args = Ok (norm_lib Lc).
+Proof. exact lib_w_roundtrip. Qed.
+Print Assumptions C03_emit_roundtrip_library.
+(* THE WHOLE FILE at document level: every writable value; the document written (header, status with
+   timestamp and program metadata, all libraries, design) is read back as norm_file n *)
+Theorem C03_emit_roundtrip_file : forall ts prog n d,
+  writable n = true -> params_w ts prog = true -> emit_file ts prog [] n = EmOk d ->
+  atoms_ascii d = true -> elab_file d = Ok (norm_file n).
+Proof. exact file_roundtrip. Qed.
+Print Assumptions C03_emit_roundtrip_file.
+
+(* every writable value IS written (no EmRaises / EmUnsupported), its document is ASCII and its own text *)
+From SV Require Import Proofs.EdifEmitTotal.
+Theorem C03_emit_total : forall ts prog n, writable n = true -> params_w ts prog = true ->
+  exists d, emit_file ts prog [] n = EmOk d /\ atoms_ascii d = true /\ sexp_ok d = true.
+Proof. exact emit_total. Qed.
+Print Assumptions C03_emit_total.
+
+(* THE GENERAL STATEMENT over the decidable class [writable] (Fmt/EdifEmit.v: what the reader checks
+   on the written file, minus the remaining open findings: bit-like scalar names, bus names starting
+   with a backslash, non-ASCII text, line breaks in strings): for every writable netlist value and
+   admissible timestamp / program parameters the writer model writes a TEXT, and the reader model
+   (tokenizer, parenthesis reader, whole-file elaboration) reads that text back as norm_file n -
+   same libraries, cells, ports, instances with references and properties, cables with the same pins
+   wire by wire, same top instance; only the view is called "netlist" and a bus carries the array
+   flag. PROVED (C03_emit_roundtrip_full_holds). It is a statement about the two MODELS; the models
+   are tied to the code on every run (harness/edif_emit.py: composer output == emit_file; whole-file
+   tie: elab_text == sdn.parse), and every run still evaluates writable n -> rt_check n and
+   writable n -> the implementation reads its own file back to the same netlist. *)
 Definition C03_emit_roundtrip_full : Prop := forall ts prog n,
   writable n = true -> params_w ts prog = true ->
   exists t, emit_text ts prog [] n = EmOk t /\ elab_text t = Ok (norm_file n).
+Theorem C03_emit_roundtrip_full_holds : C03_emit_roundtrip_full.
+Proof. exact emit_roundtrip_full. Qed.
+Print Assumptions C03_emit_roundtrip_full_holds.
